@@ -90,10 +90,11 @@ let dump_arg (a : AotTree.arg) : string =
     | None -> "none"
     | Some l -> "(some" ^ sp (String.concat " " (Stdlib.List.map (fun pv ->
         "(" ^ (if pv.AotTree.pv_hide then "h" else "v") ^ " " ^ hex pv.AotTree.pv_name ^ ")") l)) ^ ")" in
-  Printf.sprintf "(arg %s (s %s) (l %s) (sa%s) (la%s) %s %s (pvs %s) (hint %s) %s %s)"
+  Printf.sprintf "(arg %s (s %s) (l %s) (sa%s) (la%s) %s %s (num %s %s) (pvs %s) (hint %s) %s %s)"
     (hex a.AotTree.a_id) (opt_hex a.AotTree.a_short) (opt_hex a.AotTree.a_long)
     (sp (vis_list a.AotTree.a_short_aliases)) (sp (vis_list a.AotTree.a_aliases))
     (if takes then "tv" else "fl") (if AotTree.a_is_positional a then "pos" else "opt")
+    (Z.to_string (z_of_n (AotTree.a_min_values a))) (Z.to_string (z_of_n (AotTree.a_max_values a)))
     pvs (hint_name (AotTree.a_get_hint a))
     (if a.AotTree.a_hide then "hidden" else "shown") (if a.AotTree.a_global then "global" else "local")
 
@@ -106,21 +107,25 @@ let rec dump_cmd (c : AotTree.cmd) : string =
 
 let run_aot (a : Sx.t list) : string =
   match a with
-  | [shell; bin; spec] ->
+  | shell :: bin :: spec :: rest ->
     let shell = Sx.sym shell and bin = bytes_of bin in
+    let queries = Stdlib.List.filter (fun q -> Sx.head q = "q") rest in
     let c = build_cmd (Sx.args spec) in
     (match AotTree.build (AotTree.set_bin_name c bin) with
      | None -> "OUTOFFUEL"
      | Some b ->
-       let script =
-         if shell = "bash" then
-           (match BashModel.bash_table b with
-            | None -> None
-            | Some t -> Some (hex (BashModel.render t)))
-         else Some "none" in
-       match script with
-       | None -> "PANIC"
-       | Some s -> "(det true) (script " ^ s ^ ") (built " ^ dump_cmd b ^ ")")
+       if shell = "bash" then
+         (match BashModel.bash_table b with
+          | None -> "PANIC"
+          | Some t ->
+            let reply q =
+              let words = Stdlib.List.map bytes_of (Sx.args q) in
+              match BashModel.bash_complete t words with
+              | None -> "(unmodelled)"
+              | Some l -> "(r" ^ sp (String.concat " " (Stdlib.List.map hex l)) ^ ")" in
+            "(shell bash) (det true) (script " ^ hex (BashModel.render t) ^ ") (built " ^ dump_cmd b ^ ") (syntax ok) (replies"
+            ^ sp (String.concat " " (Stdlib.List.map reply queries)) ^ ")")
+       else "(shell " ^ shell ^ ") (det true) (script none) (built " ^ dump_cmd b ^ ") (syntax na) (replies)")
   | _ -> "badcase"
 
 let () =
